@@ -145,8 +145,18 @@ class Ctx:
             "outages": has_out,
             "shifted": start != 0,
             "negative_start": start < 0,
+            "buffer_id_beyond_count": self._buffer_id_beyond_count(),
             "always": True,
         }
+
+    def _buffer_id_beyond_count(self):
+        inst = self.instance
+        ids = [b.id for b in inst.buffers] + [b.id for m in inst.machines for b in (m.prebuffer, m.buffer, m.postbuffer)] + \
+            [t.buffer.id for t in inst.transports]
+        try:
+            return any(int(i.split("-")[1]) > len(ids) - 1 for i in ids)
+        except Exception:
+            return False
 
     def in_c11_class(self):
         inst = self.instance
